@@ -4,7 +4,7 @@ from fractions import Fraction
 import lib, storelib as S, arithlib as A
 from lib import Result, model_call, run_sharded, e_list, e_dy, Reader, outcome
 
-RULE = ('scalar and array inputs whose elements are dyadic rationals k/2^f with f<=20 and |k|<2^40 (boundary values +-2^j, 2^j - LSB, small integers, random), as floats, Python ints and int arrays; signedness True / False (non-negative values) / default; '
+RULE = ('scalar and array inputs whose elements are dyadic rationals k/2^f with f<=20 and |k|<2^40 (boundary values +-2^j, 2^j - LSB, small integers, random; arrays with symmetric and near-symmetric extremes v, -v, -v+-LSB), as floats, Python ints and int arrays; signedness True / False (non-negative values) / default; '
         'every subset of {n_word, n_frac, n_int} left unspecified. Checked with exact rationals: values stored exactly with no flag; n_frac minimal (fewest fraction bits making all values integral); n_word minimal with a non-negative integer length; '
         'only n_word given: n_frac = min(exact n_frac, room left); only n_frac given: minimal word; n_int given with one other size: the third follows arithmetically; capped case (random non-dyadic doubles): n_word <= 64, error < 1 LSB, inexact flag. '
         'Compared also with the model Sizes.init_size. Non-trivial = some value has a fractional part or needs more than 1 integer bit; distinct by full input.')
@@ -23,7 +23,7 @@ def min_int(vals, nf, signed):
         i += 1
 
 def gen(rng):
-    n = rng.choice([1, 1, 1, 2, 4]); f = rng.randint(0, 20)
+    n = rng.choice([1, 1, 1, 2, 2, 4]); f = rng.randint(0, 20)
     vals = []
     for _ in range(n):
         k = rng.random()
@@ -31,6 +31,8 @@ def gen(rng):
         elif k < 0.5: v = Fraction(rng.randint(-40, 40))
         else: v = Fraction(rng.randint(-2 ** rng.randint(1, 40), 2 ** rng.randint(1, 40)), 2 ** f)
         vals.append(v)
+    if n >= 2 and rng.random() < 0.4:   # union-of-requirements boundaries: symmetric and near-symmetric extremes
+        vals[1] = -vals[0] + rng.choice([0, 0, 1, -1]) * Fraction(1, 2 ** f)
     signed = rng.choice([True, None, False])
     if signed is False: vals = [abs(v) for v in vals]
     given = rng.choice(['none', 'none', 'n_word', 'n_frac', 'n_int+n_frac', 'n_int+n_word', 'n_int'])
